@@ -132,6 +132,12 @@ def work_filter(p):
         for r in roots:
             files += [r + "-local/x.py", r + "_apps/pkg/x.py", r + ".bak/x.py", r[:-1] + "/x.py", r + "2/json/decoder.py"]
             res.count("sibling_prefix_paths", 5)
+        # directory components and stems that merely CONTAIN a listed name next to a dot, a dash or as a hidden directory
+        for nm in (allow or ["json", "alpha"])[:3] + ["sub"]:
+            files += [os.path.join(d, f"build.{nm}", "helper.py"), os.path.join(d, f".{nm}", "hidden.py"), os.path.join(d, f"{nm}-1.2", "mod.py"),
+                      os.path.join(d, f"x.{nm}.y", "m.py"), os.path.join(d, "pkgdir", f"{nm}.cfg.py"), os.path.join(d, "pkgdir", f"my{nm}.py"),
+                      os.path.join(d, f"{nm}", "inside.py"), os.path.join(d, "pkgdir", f"{nm}.py")]
+            res.count("dotted_component_paths", 8)
         cwd = os.getcwd()
         os.chdir(real)
         try:
@@ -348,6 +354,7 @@ def run(ck):
     ck.need("synthetic_paths", 10)
     ck.need("synthetic_names", 5)
     ck.need("sibling_prefix_paths", 5)
+    ck.need("dotted_component_paths", 50)
     ck.need("twin_judgements", 4)
     ck.need("e2e_default", 5)
     ck.need("e2e_allow", 5)
